@@ -988,7 +988,11 @@ class C09(Prop):
         'immutable_reach', 'cache_correct', 'no_shared_mutable', 'immutable_setattr_rejected',
         'immutable_delattr_rejected', 'sighash_preserves_heap', 'verify_preserves_heap', 'sighash_keeps_objects',
         'verify_keeps_objects', 'value_frame', 'value_frame_run', 'copy_unaffected',
-        'target_refines', 'target_refines_none', 'heap_ident_eq_value', 'heap_pyhash_eq_value')]
+        'target_refines', 'target_refines_none', 'heap_ident_eq_value', 'heap_pyhash_eq_value',
+        'inv_init_ext', 'inv_step_ext', 'inv_reachable_ext', 'cache_correct_ext', 'immutable_reach_ext',
+        'copy_fresh_ext', 'sighash_preserves_heap_ext', 'verify_preserves_heap_ext', 'heap_ident_eq_value_ext',
+        'immutable_setref_rejected_ext', 'immutable_slots_stable_ext', 'immutable_value_stable_ext',
+        'immutable_value_stable_run_ext', 'getHash_reflects_value_ext', 'ser_reflects_value_ext')]
     anchors = [('bitcoin/core/serialize.py', q) for q in (
         'Serializable.GetHash', 'Serializable.__eq__', 'Serializable.__hash__',
         'ImmutableSerializable.__setattr__', 'ImmutableSerializable.__delattr__', 'ImmutableSerializable.GetHash',
@@ -1032,7 +1036,7 @@ class C09(Prop):
                 if i % nshards != shard:
                     continue
                 yield mk('c09.run', directed(rng, pool, which), tag='directed%d' % which)
-        for rep in range(6000 if big else 700):
+        for rep in range(6000 if big else 480):
             i += 1
             if i % nshards != shard:
                 continue
@@ -1052,7 +1056,14 @@ class C09(Prop):
     def model_line(self, case):
         if VERBOSE:
             return '\t'.join(['c09.runv'] + list(case['args']))
-        return case.line
+        # c09.runc = c09.run plus the verdict of the model-internal cross-check heap model vs Spec.AliasSem
+        # (the T2 tie of the unproved `refines_alias_spec`)
+        return '\t'.join(['c09.runc'] + list(case['args']))
+
+    def agree(self, case, impl_out, model_out):
+        if VERBOSE:
+            return impl_out == model_out
+        return impl_out + '@@same' == model_out
 
     def impl(self, c):
         return run_history(self.mods, c['args'][0], VERBOSE)
@@ -1077,6 +1088,8 @@ class C09(Prop):
                 yield mk('c09.run', ';'.join(cand), tag=c.get('tag', ''))
 
     def signature(self, c, io, mo):
+        if not mo.endswith('@@same') and '@@diff@' in mo and io == mo.split('@@')[0]:
+            return 'C09-model-vs-aliasspec'      # heap model and Spec.AliasSem disagree (not a defect of /repo)
         return None
 
 
